@@ -2241,6 +2241,157 @@ def r_readers(ctx, a):
 
 
 # ---------------------------------------------------------------------------
+# transforms: every restructuring function on array leaves also under jax.jit (whole round trip in one
+# jitted function, each half jitted separately, shape_structure inside and outside the traced function),
+# jax.vmap over a leading batch axis and jax.eval_shape; results bit-identical to eager, exceptions are failures
+# ---------------------------------------------------------------------------
+TRANS = 'restructuring utilities give the eager result, bit for bit, under jax.jit, jax.vmap and jax.eval_shape'
+
+def gen_transforms(ctx):
+    rng = ctx.rng
+    n = 6 if ctx.tier == 'quick' else 36
+    for i in range(n):
+        ndim = int(rng.integers(2, 4))
+        nl = int(rng.integers(2, 4))
+        axis = int(rng.integers(-ndim, ndim))
+        other = [int(rng.integers(1, 4)) for _ in range(ndim)]
+        sizes = [int(rng.integers(0 if i % 5 == 4 else 1, 4)) for _ in range(nl)]
+        yield 'transforms', {'ndim': ndim, 'nl': nl, 'axis': axis, 'other': other, 'sizes': sizes,
+                             'form': FORMS[i % len(FORMS)], 'idx': int(rng.integers(-3, 4)), 'keep': bool(i % 2),
+                             'struct': ['dict', 'nested', 'list'][i % 3], 'sep': ['&', '/'][i % 2],
+                             'spec': [[3, 4, 5, 6, 'real'], [2, 3, 4, 5, 'fast'], [3, 4, 4, 6, 'fast4'], [2, 3, 3, 4, 'zeroimag']][i % 4],
+                             'K': int(rng.integers(1, 3))}
+
+
+def _tr_diff(jax, got, want, shapes_only=False):
+    lg, tg = jax.tree_util.tree_flatten(got); lw, tw = jax.tree_util.tree_flatten(want)
+    if tg != tw: return 'tree structure %s vs eager %s' % (tg, tw)
+    for j, (x, y) in enumerate(zip(lg, lw)):
+        xs, xd = tuple(x.shape), np.dtype(x.dtype)
+        y = np.asarray(y)
+        if xs != y.shape: return 'leaf %d: shape %s vs eager %s' % (j, xs, y.shape)
+        if xd != y.dtype: return 'leaf %d: dtype %s vs eager %s' % (j, xd, y.dtype)
+        if not shapes_only and np.asarray(x).tobytes() != y.tobytes(): return 'leaf %d: values differ from eager' % j
+    return None
+
+
+def _tr_batch(jax, tree):
+    def two(x):
+        x = np.asarray(x)
+        return np.stack([x, np.roll(x.ravel(), 1).reshape(x.shape)])
+    return jax.tree_util.tree_map(two, tree)
+
+
+def _tr_run(ctx, jax, name, fn, tree, info, kinds=('jit', 'eval_shape', 'vmap')):
+    """fn: pytree of arrays -> pytree of arrays (everything else closed over)"""
+    def report(kind, err):
+        ctx.oracle(TRANS, err is None, dict(info, fn=name, transform=kind, error=err))
+        ctx.count('transforms:%s' % kind)
+    try:
+        want = fn(tree)
+    except Exception as e:
+        return report('eager', 'eager call raised ' + repr(e)[:200])
+    for kind in kinds:
+        try:
+            if kind == 'jit':
+                err = _tr_diff(jax, jax.jit(fn)(tree), want)
+            elif kind == 'eval_shape':
+                err = _tr_diff(jax, jax.eval_shape(fn, tree), want, shapes_only=True)
+            else:
+                bt = _tr_batch(jax, tree)
+                got = jax.vmap(fn)(bt); err = None
+                for b in (0, 1):
+                    wb = fn(jax.tree_util.tree_map(lambda x: x[b], bt))
+                    err = err or _tr_diff(jax, jax.tree_util.tree_map(lambda x: x[b], got), wb)
+        except Exception as e:
+            err = '%s raised %s: %s' % (kind, type(e).__name__, str(e).splitlines()[0][:160] if str(e) else '')
+        report(kind, err)
+    return want
+
+
+def r_transforms(ctx, a):
+    jax, jnp, pu = J()
+    sh_, cs_, sc_, impls = SP()
+    ndim, nl, axis, form = a['ndim'], a['nl'], a['axis'], a['form']
+    info = {'axis': axis, 'form': form}
+    def shape_with(n):
+        sh = list(a['other']); sh[axis] = n; return tuple(sh)
+    def mk(leaves):
+        if a['struct'] == 'list': return list(leaves)
+        if a['struct'] == 'dict': return {'k%d' % j: x for j, x in enumerate(leaves)}
+        return {'u': leaves[0], 'tr': {'q%d' % j: x for j, x in enumerate(leaves[1:])}, 'none': None, 'empty': {}}
+    het = mk([leaf_data(j, shape_with(n), form) for j, n in enumerate(a['sizes'])])         # sizes differ along axis
+    hom = mk([leaf_data(j, tuple(a['other']), form) for j in range(nl)])                     # equal shapes
+    naxis = axis if axis >= 0 else axis + ndim
+    # -- pack / unpack: shape_structure inside and outside the traced function; halves jitted separately
+    shapes_out = pu.shape_structure(het)
+    rt_kinds = ('jit', 'eval_shape', 'vmap')
+    if np.asarray(jax.tree_util.tree_leaves(het)[-1]).shape[axis] == 0:
+        # XLA CPU (jax 0.11.1) fails to compile concatenate([.., empty]) followed by the empty trailing slice
+        # ("SmallVector unable to grow"), independent of dinosaur: jit(lambda a, c: jnp.concatenate([a, c], 1)[:, 2:2])
+        rt_kinds = ('eval_shape', 'vmap')
+        ctx.count('transforms:excluded: jit of pack->unpack in ONE function with an empty last leaf (XLA compile error on the unchanged tree)')
+    _tr_run(ctx, jax, 'unpack(pack(t), shape_structure(t)) [shapes computed inside]',
+            lambda t: pu.unpack_to_pytree(pu.pack_pytree(t, axis), pu.shape_structure(t), axis), het, info, rt_kinds)
+    _tr_run(ctx, jax, 'unpack(pack(t), shapes) [shapes computed outside]',
+            lambda t: pu.unpack_to_pytree(pu.pack_pytree(t, axis), shapes_out, axis), het, info, rt_kinds)
+    packed = _tr_run(ctx, jax, 'pack_pytree', lambda t: pu.pack_pytree(t, axis), het, info)
+    if packed is not None:
+        _tr_run(ctx, jax, 'unpack_to_pytree', lambda p: pu.unpack_to_pytree(p, shapes_out, axis), np.asarray(packed), info)
+    # -- stack / unstack (new axis position in -(ndim+1) .. ndim)
+    sax = axis
+    shapes_h = pu.shape_structure(hom)
+    _tr_run(ctx, jax, 'unstack(stack(t), shape_structure(t)) [inside]',
+            lambda t: pu.unstack_to_pytree(pu.stack_pytree(t, sax), pu.shape_structure(t), sax), hom, info)
+    stacked = _tr_run(ctx, jax, 'stack_pytree', lambda t: pu.stack_pytree(t, sax), hom, info)
+    if stacked is not None:
+        _tr_run(ctx, jax, 'unstack_to_pytree', lambda p: pu.unstack_to_pytree(p, shapes_h, sax), np.asarray(stacked), info)
+    # -- split / concat / slice along a (non-negative) axis
+    idx = a['idx']
+    _tr_run(ctx, jax, 'concat_along_axis(split_along_axis(t, i))',
+            lambda t: pu.concat_along_axis(list(pu.split_along_axis(t, idx, naxis)), naxis), het, dict(info, idx=idx))
+    _tr_run(ctx, jax, 'split_along_axis', lambda t: pu.split_along_axis(t, idx, naxis), het, dict(info, idx=idx))
+    _tr_run(ctx, jax, 'concat_along_axis', lambda ts: pu.concat_along_axis(ts, naxis), [het, het, het], info)
+    for sl, nm in ((0, 'int'), (slice(0, 1), 'slice')):
+        if all(x.shape[naxis] > 0 for x in jax.tree_util.tree_leaves(het)):
+            _tr_run(ctx, jax, 'slice_along_axis(%s)' % nm, lambda t: pu.slice_along_axis(t, naxis, sl), het, info)
+    # -- split_axis (both keep_dims) and back
+    keep = a['keep']
+    if a['other'][axis] > 0:
+        _tr_run(ctx, jax, 'split_axis(keep_dims=%s)' % keep, lambda t: pu.split_axis(t, axis, keep_dims=keep), hom, info)
+        _tr_run(ctx, jax, 'concat_along_axis(split_axis(t, keep_dims=True))',
+                lambda t: pu.concat_along_axis(list(pu.split_axis(t, axis, keep_dims=True)), axis), hom, info)
+    # -- nested dictionaries with array leaves
+    sep = a['sep']
+    L = [leaf_data(j, tuple(a['other']), form) for j in range(4)]
+    d = {'a': {'b': L[0], 'e': {}, 'bc': {'c': L[1]}}, 'ab': {}, '': {'x': L[2]}, 'c': L[3]}
+    _tr_run(ctx, jax, 'unflatten_dict(*flatten_dict(d))',
+            lambda t: pu.unflatten_dict(*pu.flatten_dict(t, sep=sep), sep=sep), d, dict(info, sep=sep))
+    _tr_run(ctx, jax, 'flatten_dict(d)[0]', lambda t: pu.flatten_dict(t, sep=sep)[0], d, dict(info, sep=sep))
+    flat, empt = pu.flatten_dict(d, sep=sep)
+    _tr_run(ctx, jax, 'unflatten_dict(flat, empty)', lambda f: pu.unflatten_dict(f, empt, sep=sep), dict(flat), dict(info, sep=sep))
+    rep_d = {'a': {'b': L[3]}, 'c': L[0]}
+    _tr_run(ctx, jax, 'replace_with_matching_or_default(x, replace)',
+            lambda xr: pu.replace_with_matching_or_default(xr[0], xr[1], default=0.0), (d, rep_d), info)
+    # -- spectral up / down / interpolate
+    mc, lc, mf, lf, impl = a['spec']
+    vert = sc_.SigmaCoordinates.equidistant(a['K'])
+    gc, gf = _grid(mc, lc, impl), _grid(mf, lf, impl)
+    csc, csf = cs_.CoordinateSystem(gc, vert), cs_.CoordinateSystem(gf, vert)
+    def sdata(j, shape): return leaf_data(j, shape, 'f4' if form == 'f4' else None)
+    st_c = {'x': sdata(0, (a['K'],) + gc.modal_shape), 'tr': {'q': sdata(1, gc.modal_shape)}, 'r4': sdata(2, (2, a['K']) + gc.modal_shape)}
+    st_f = {'x': sdata(3, (a['K'],) + gf.modal_shape), 'tr': {'q': sdata(4, gf.modal_shape)}, 'r4': sdata(5, (2, a['K']) + gf.modal_shape)}
+    sinfo = dict(info, impl=impl, coarse=list(gc.modal_shape), fine=list(gf.modal_shape))
+    up, down = cs_.get_spectral_upsample_fn(csc, csf), cs_.get_spectral_downsample_fn(csf, csc)
+    _tr_run(ctx, jax, 'spectral upsample', up, st_c, sinfo)
+    _tr_run(ctx, jax, 'spectral downsample', down, st_f, sinfo)
+    _tr_run(ctx, jax, 'spectral downsample(upsample(x))', lambda t: down(up(t)), st_c, sinfo)
+    _tr_run(ctx, jax, 'spectral interpolate (coarse->fine)', cs_.get_spectral_interpolate_fn(csc, csf), st_c, sinfo)
+    _tr_run(ctx, jax, 'spectral interpolate (fine->coarse)', cs_.get_spectral_interpolate_fn(csf, csc), st_f, sinfo)
+    ctx.count('transforms:not traced: shape_structure(t) passed as a traced ARGUMENT (shapes must be static; excluded)')
+
+
+# ---------------------------------------------------------------------------
 def generate(ctx):
     yield from gen_dicts(ctx)
     yield from gen_arrays(ctx)
@@ -2249,6 +2400,7 @@ def generate(ctx):
     yield from gen_attrs_model(ctx)
     yield from gen_part4(ctx)
     yield from gen_readers(ctx)
+    yield from gen_transforms(ctx)
 
 
 RUNNERS = {'dict': r_dict, 'unflatten': r_unflatten, 'replace': r_replace, 'pack': r_pack, 'stack': r_stack,
@@ -2256,3 +2408,4 @@ RUNNERS = {'dict': r_dict, 'unflatten': r_unflatten, 'replace': r_replace, 'pack
            'dims': r_dims, 'attrs_model': r_attrs_model}
 RUNNERS.update(RUNNERS_PART4)
 RUNNERS['xr_readers'] = _p4_guard(C19_XR, r_readers)
+RUNNERS['transforms'] = _p4_guard(TRANS, r_transforms)
